@@ -1,5 +1,7 @@
-(* C03 proof library, part 6: at the top level, a surviving row of an %ordered rule is
-   MOVED exactly when the prefix of new up to it differs from the same prefix of old. *)
+(* C03 proof library, part 6: the MOVED characterisation at every depth.  Below an entry that is
+   itself MOVED every surviving row is MOVED; below any other entry present on both sides (and at the
+   top level) a surviving row of an %ordered rule is MOVED exactly when the prefix of new up to it
+   differs from the same prefix of old. *)
 From Coq Require Import List String Bool Arith Lia Permutation.
 From Annet Require Import Base.Str Base.Tree Model.Rulebook Model.Diff Spec.P_C03 Proofs.DiffBasics
   Proofs.DiffProofsLib Proofs.DiffProofsAnnot Proofs.DiffProofsLossless Proofs.DiffProofsOrder.
@@ -9,12 +11,14 @@ Open Scope list_scope.
 Lemma amem_afind_None og r i : afind r og i = None -> amem r og = false.
 Proof. intros H. apply afind_None in H. unfold amem. rewrite H. reflexivity. Qed.
 
+(* ---------- index-based move detection, any parent op ---------- *)
 Section Scan.
   Variable og : aforest.
+  Variable pop : op.
   Variable inrw : bool.
 
   Lemma scan_dis_moved : forall l i d,
-    In d (scan_new og Affected inrw false (cks l) i true) -> amem (d_row d) og = true -> d_op d = Moved.
+    In d (scan_new og pop inrw false (cks l) i true) -> amem (d_row d) og = true -> d_op d = Moved.
   Proof.
     induction l as [|[[r m] c] l IH]; intros i d Hd Ham; [destruct Hd|].
     change (cks ((r, m, c) :: l)) with ((r, m, diff_t c) :: cks l) in Hd. cbn [scan_new] in Hd.
@@ -25,7 +29,7 @@ Section Scan.
   Qed.
 
   Lemma tail_moved o r m kk ns i d :
-    In d (DN o r m kk :: scan_new og Affected inrw false (cks ns) i true) ->
+    In d (DN o r m kk :: scan_new og pop inrw false (cks ns) i true) ->
     (o = Moved \/ amem r og = false) -> amem (d_row d) og = true -> d_op d = Moved.
   Proof.
     intros [E|Hd] Ho Ham.
@@ -34,22 +38,22 @@ Section Scan.
   Qed.
 End Scan.
 
-Lemma scan_moved_false inrw : forall nsuf pre osuf,
+Lemma scan_moved_gen pop inrw : forall nsuf pre osuf,
   NoDup (arows (pre ++ osuf)) -> NoDup (arows nsuf) ->
-  forall d, In d (scan_new (pre ++ osuf) Affected inrw false (cks nsuf) (List.length pre) false) ->
+  forall d, In d (scan_new (pre ++ osuf) pop inrw false (cks nsuf) (List.length pre) false) ->
             amem (d_row d) (pre ++ osuf) = true ->
-            op_eqb (d_op d) Moved = negb (prefix_ok (arows osuf) (arows nsuf) (d_row d)).
+            op_eqb (d_op d) Moved = op_eqb pop Moved || negb (prefix_ok (arows osuf) (arows nsuf) (d_row d)).
 Proof.
   induction nsuf as [|[[r m] c] ns IH]; intros pre osuf Hndo Hndn d Hd Ham; [destruct Hd|].
   change (cks ((r, m, c) :: ns)) with ((r, m, diff_t c) :: cks ns) in Hd. cbn [scan_new orb] in Hd.
   change (arows ((r, m, c) :: ns)) with (r :: arows ns) in *.
   assert (Hmoved : forall o kk, (o = Moved \/ amem r (pre ++ osuf) = false) ->
-            In d (DN o r m kk :: scan_new (pre ++ osuf) Affected inrw false (cks ns) (S (List.length pre)) true) ->
+            In d (DN o r m kk :: scan_new (pre ++ osuf) pop inrw false (cks ns) (S (List.length pre)) true) ->
             d_op d = Moved).
   { intros o kk Ho Hin. eapply tail_moved; eassumption. }
   destruct osuf as [|[[r' mo] so] osuf'].
   - (* old exhausted: everything still present has moved *)
-    cbn [arows map prefix_ok negb].
+    cbn [arows map prefix_ok negb]. rewrite orb_true_r.
     apply op_eqb_eq.
     destruct (afind r (pre ++ []) 0) as [[j so]|] eqn:Ef.
     + apply afind_nth in Ef as (_ & m' & Hn).
@@ -67,9 +71,9 @@ Proof.
     + subst r'. rewrite afind_app_hit in Hd by exact Hr'. cbn [plus] in Hd.
       rewrite Nat.eqb_refl in Hd. cbn [negb] in Hd. cbn [andb].
       destruct Hd as [E|Hd].
-      * subst d. cbn [d_op d_row op_eqb]. rewrite String.eqb_refl. reflexivity.
+      * subst d. cbn [d_op d_row]. rewrite String.eqb_refl. cbn [orb negb]. rewrite orb_false_r. reflexivity.
       * assert (Hrow : In (d_row d) (arows ns)).
-        { rewrite <- (scan_rows (pre ++ (r, mo, so) :: osuf') Affected inrw false ns (S (List.length pre)) false).
+        { rewrite <- (scan_rows (pre ++ (r, mo, so) :: osuf') pop inrw false ns (S (List.length pre)) false).
           apply in_map. exact Hd. }
         assert (Hne : String.eqb r (d_row d) = false).
         { apply String.eqb_neq. intro E. inversion Hndn as [|x l Hx Hl]; subst. contradiction. }
@@ -78,7 +82,7 @@ Proof.
         rewrite <- app_assoc in IH. cbn [app] in IH.
         rewrite app_length in IH. cbn [List.length] in IH. rewrite Nat.add_1_r in IH.
         apply IH; try assumption. inversion Hndn; assumption.
-    + cbn [andb negb]. apply op_eqb_eq.
+    + cbn [andb negb]. rewrite orb_true_r. apply op_eqb_eq.
       destruct (afind r (pre ++ (r', mo, so) :: osuf') 0) as [[j so']|] eqn:Ef.
       * assert (E : Nat.eqb (List.length pre) j = false).
         { apply Nat.eqb_neq. intro E. subst j. apply afind_nth in Ef as (_ & m' & Hn).
@@ -88,30 +92,221 @@ Proof.
       * eapply Hmoved; [right; eapply amem_afind_None; exact Ef | exact Hd].
 Qed.
 
+(* ---------- the checker, unfolded once ---------- *)
+Lemma moved_ok_n_eq ao an o row mi kids :
+  moved_ok_n ao an (DN o row mi kids) =
+  match alookup row ao, alookup row an with
+  | Some (_, so), Some (_, sn) =>
+    moved_ok_lvl (op_eqb o Moved) (akids so) (akids sn) kids &&
+    forallb (moved_ok_n (akids so) (akids sn)) kids
+  | _, _ => true
+  end.
+Proof. reflexivity. Qed.
+
+Definition mclause (pm : bool) (ao an : aforest) (k : dnode) : bool :=
+  negb (is_ordered_in an (d_row k)) || negb (amem (d_row k) ao) || negb (amem (d_row k) an) ||
+  Bool.eqb (op_eqb (d_op k) Moved)
+           (pm || negb (prefix_ok (ordered_rows_a ao) (ordered_rows_a an) (d_row k))).
+
+Lemma moved_ok_lvl_eq pm ao an d : moved_ok_lvl pm ao an d = forallb (mclause pm ao an) d.
+Proof. reflexivity. Qed.
+
+(* ---------- mark_unchanged keeps rows and MOVED-ness ---------- *)
 Lemma mark_moved x : op_eqb (d_op (mark_unchanged_n x)) Moved = op_eqb (d_op x) Moved.
 Proof.
   destruct x as [o r m k]. cbn [mark_unchanged_n]. destruct o; cbn [op_eqb d_op]; try reflexivity.
   destruct (forallb _ _); reflexivity.
 Qed.
 
-Section MovedTop.
-  Variables (ao nk : aforest).
+Lemma mclause_mark pm ao an x : mclause pm ao an (mark_unchanged_n x) = mclause pm ao an x.
+Proof. unfold mclause. rewrite mark_row, mark_moved. reflexivity. Qed.
+
+Lemma moved_lvl_mark pm ao an l : moved_ok_lvl pm ao an (map mark_unchanged_n l) = moved_ok_lvl pm ao an l.
+Proof.
+  rewrite !moved_ok_lvl_eq. induction l as [|x l IH]; [reflexivity|]. cbn [map forallb].
+  rewrite mclause_mark, IH. reflexivity.
+Qed.
+
+Lemma moved_mark : forall d ao an, moved_ok_n ao an d = true -> moved_ok_n ao an (mark_unchanged_n d) = true.
+Proof.
+  induction d as [o row m kids IH] using dnode_ind2. intros ao an H. cbn [mark_unchanged_n].
+  destruct (op_eqb o Affected) eqn:Eo; [|exact H]. apply op_eqb_eq in Eo. subst o.
+  rewrite moved_ok_n_eq in *.
+  destruct (alookup row ao) as [[mo so]|]; [|reflexivity].
+  destruct (alookup row an) as [[mn sn]|]; [|reflexivity].
+  apply andb_true_iff in H as [H1 H2].
+  assert (E : forall b : bool, op_eqb (if b then Unchanged else Affected) Moved = op_eqb Affected Moved)
+    by (intros []; reflexivity).
+  rewrite E, moved_lvl_mark, H1. cbn [andb].
+  apply forallb_forall. intros x Hx. apply in_map_iff in Hx as (y & Ey & Hy). subst x.
+  rewrite Forall_forall in IH. rewrite forallb_forall in H2. apply IH; [exact Hy | apply H2; exact Hy].
+Qed.
+
+(* ---------- raw diffs contain no UNCHANGED entry ---------- *)
+Lemma removed_t_nu : forall t d, In d (removed_t t) -> no_unchanged_n d = true.
+Proof.
+  induction t as [nk IH] using atree_ind2. intros d Hd.
+  apply removed_t_In in Hd as (k & Hk & E). subst d. cbn [akids] in Hk.
+  unfold mkrem. cbn [no_unchanged_n op_eqb negb andb].
+  apply forallb_forall. intros x Hx. rewrite Forall_forall in IH. eapply IH; eassumption.
+Qed.
+
+Lemma aff_to_moved_nu : forall d, no_unchanged_n d = true -> no_unchanged_n (aff_to_moved_n d) = true.
+Proof.
+  induction d as [o row m kids IH] using dnode_ind2. cbn [no_unchanged_n aff_to_moved_n]. intros H.
+  apply andb_true_iff in H as [H1 H2]. apply andb_true_iff. split.
+  - destruct o; try reflexivity. discriminate.
+  - apply forallb_forall. intros x Hx. apply in_map_iff in Hx as (y & Ey & Hy). subst x.
+    rewrite Forall_forall in IH. rewrite forallb_forall in H2. apply IH; [exact Hy | apply H2; exact Hy].
+Qed.
+
+Definition NU (t : atree) : Prop :=
+  forall ao pop inrw d, pop <> Unchanged -> In d (diff_t t ao pop inrw) -> no_unchanged_n d = true.
+
+Lemma base_nu og ng pop inrw' mta y :
+  Forall (fun k => NU (asub k)) ng -> pop <> Unchanged ->
+  In y (base_diff og pop inrw' mta (cks ng)) -> no_unchanged_n y = true.
+Proof.
+  intros IH Hpop Hy. rewrite Forall_forall in IH.
+  apply base_diff_In in Hy as [(k & Hk & Hrel)|(k & Hk & Hn & E)].
+  - unfold scan_rel in Hrel. destruct (alookup (arow k) og) as [[mo so]|].
+    + destruct Hrel as (o & Ho & E). subst y. cbn [no_unchanged_n].
+      assert (Ho' : o <> Unchanged) by (destruct Ho; subst o; [exact Hpop | discriminate]).
+      apply andb_true_iff. split; [destruct o; try reflexivity; congruence|].
+      apply forallb_forall. intros x Hx. eapply (IH k Hk); eassumption.
+    + subst y. cbn [no_unchanged_n op_eqb negb andb].
+      apply forallb_forall. intros x Hx. eapply (IH k Hk); [|exact Hx]. discriminate.
+  - subst y. unfold mkrem. cbn [no_unchanged_n op_eqb negb andb].
+    apply forallb_forall. intros x Hx. eapply removed_t_nu. exact Hx.
+Qed.
+
+Theorem diff_t_nu : forall t, NU t.
+Proof.
+  induction t as [nk IH] using atree_ind2. unfold NU. intros ao pop inrw d Hpop Hd.
+  rewrite diff_t_unfold, diff_level_unfold in Hd. apply in_flat_map in Hd as (L & _ & Hd).
+  apply run_dlogic_In in Hd as (inrw' & mta & y & Hy & [E|E]); subst d.
+  - eapply base_nu; [|exact Hpop|exact Hy].
+    apply Forall_forall. intros k Hk. rewrite Forall_forall in IH. apply IH.
+    apply filter_In in Hk as [Hk _]. exact Hk.
+  - apply aff_to_moved_nu. eapply base_nu; [|exact Hpop|exact Hy].
+    apply Forall_forall. intros k Hk. rewrite Forall_forall in IH. apply IH.
+    apply filter_In in Hk as [Hk _]. exact Hk.
+Qed.
+
+(* ---------- a block re-entered as a whole: no AFFECTED / UNCHANGED entry at any depth ---------- *)
+Lemma aff_to_moved_no_aff : forall d, no_unchanged_n d = true -> whole_n (aff_to_moved_n d) = true.
+Proof.
+  induction d as [o row m kids IH] using dnode_ind2. cbn [no_unchanged_n aff_to_moved_n whole_n]. intros H.
+  apply andb_true_iff in H as [H1 H2]. apply andb_true_iff. split.
+  - destruct o; try reflexivity. discriminate.
+  - apply forallb_forall. intros x Hx. apply in_map_iff in Hx as (y & Ey & Hy). subst x.
+    rewrite Forall_forall in IH. rewrite forallb_forall in H2. apply IH; [exact Hy | apply H2; exact Hy].
+Qed.
+
+Lemma lossless_no_aff_moved : forall d ao an,
+  lossless_n ao an d = true -> whole_n d = true -> moved_ok_n ao an d = true.
+Proof.
+  induction d as [o row m kids IH] using dnode_ind2. intros ao an HL HN.
+  rewrite moved_ok_n_eq. rewrite lossless_n_eq in HL. cbn [whole_n] in HN.
+  apply andb_true_iff in HN as [HN HNk]. apply andb_true_iff in HN as [HN1 HN2].
+  destruct (alookup row ao) as [[mo so]|]; [|reflexivity].
+  destruct (alookup row an) as [[mn sn]|]; [|reflexivity].
+  assert (Ho : o = Moved) by (destruct o; try discriminate; reflexivity). subst o.
+  cbn [negb orb] in HL. rewrite andb_true_r in HL. apply andb_true_iff in HL as [_ HL].
+  apply lossless_iff in HL as (_ & _ & _ & HL).
+  rewrite forallb_forall in HNk. rewrite Forall_forall in IH.
+  apply andb_true_iff. split.
+  - rewrite moved_ok_lvl_eq. apply forallb_forall. intros k Hk. unfold mclause.
+    destruct (amem (d_row k) (akids so)) eqn:E1; [|rewrite orb_true_r; reflexivity].
+    destruct (amem (d_row k) (akids sn)) eqn:E2; [|rewrite orb_true_r; reflexivity].
+    cbn [op_eqb orb negb]. rewrite !orb_false_r.
+    pose proof (HL k Hk) as HLk. pose proof (HNk k Hk) as HNkk.
+    destruct k as [ok rk mk kk]. cbn [d_row d_op] in *. rewrite lossless_n_eq in HLk.
+    unfold amem in E1, E2.
+    destruct (alookup rk (akids so)) as [[m1 s1]|]; [|discriminate].
+    destruct (alookup rk (akids sn)) as [[m2 s2]|]; [|discriminate].
+    cbn [whole_n] in HNkk. apply andb_true_iff in HNkk as [HNkk _]. apply andb_true_iff in HNkk as [Ha Hb].
+    destruct ok; try discriminate. cbn [op_eqb Bool.eqb]. apply orb_true_r.
+  - apply forallb_forall. intros k Hk. apply IH; [exact Hk | apply HL; exact Hk | apply HNk; exact Hk].
+Qed.
+
+(* ---------- one level ---------- *)
+Definition MV (t : atree) : Prop :=
+  forall ao pop inrw, awf ao -> awf (akids t) -> compat ao (akids t) -> pop_ok pop ao ->
+    moved_ok_lvl (op_eqb pop Moved) ao (akids t) (diff_t t ao pop inrw) = true /\
+    (forall d, In d (diff_t t ao pop inrw) -> moved_ok_n ao (akids t) d = true).
+
+Section MovedLevel.
+  Variables (ao nk : aforest) (pop : op).
   Hypothesis Hwo : awf ao.
   Hypothesis Hwn : awf nk.
   Hypothesis Hc : compat ao nk.
+  Hypothesis Hpop : pop_ok pop ao.
+  Hypothesis IH : Forall (fun k => MV (asub k)) nk.
 
-  Lemma level_moved : moved_ok_top ao nk (mark_unchanged (diff_level ao (cks nk) Affected false)) = true.
+  Let IHL : Forall (fun k => LL (asub k)) nk.
+  Proof. apply Forall_forall. intros k _. apply diff_t_lossless. Qed.
+
+  Lemma pop_not_unchanged : pop <> Unchanged \/ ao = [].
+  Proof. destruct Hpop as [E|[E|E]]; [left; subst; discriminate | left; subst; discriminate | right; exact E]. Qed.
+
+  Lemma entry_moved L inrw' mta y :
+    In y (base_diff (filter (inL L) ao) pop inrw' mta (cks (filter (inL L) nk))) ->
+    moved_ok_n ao nk y = true.
   Proof.
-    assert (Hpop : pop_ok Affected ao) by (left; reflexivity).
-    assert (IHL : Forall (fun k => LL (asub k)) nk).
-    { apply Forall_forall. intros k _. apply diff_t_lossless. }
-    unfold moved_ok_top. apply forallb_forall. intros x Hx.
-    unfold mark_unchanged in Hx. apply in_map_iff in Hx as (d & Ex & Hd). subst x.
-    rewrite mark_row, mark_moved.
+    intros Hy. apply base_diff_In in Hy as [(k & Hk & Hrel)|(k & Hk & Hn & E)].
+    - apply filter_In in Hk as [Hk HL]. destruct k as [[r m] c].
+      unfold inL, ami in HL. cbn [fst snd] in HL. apply dlogic_eqb_eq in HL.
+      destruct (scan_shape ao nk pop Hwo Hwn Hc Hpop L inrw' r m c y Hk HL Hrel)
+        as (Eln & Hwc & o & oldk & Ed & _ & Hwk & Hck & Hpk & Hcase).
+      subst y. rewrite moved_ok_n_eq, Eln.
+      destruct Hcase as [[_ Elo]|[_ (so & Elo & Eo)]].
+      + rewrite Elo. reflexivity.
+      + rewrite Elo. subst oldk.
+        rewrite Forall_forall in IH. destruct (IH _ Hk (akids so) o inrw' Hwk Hwc Hck Hpk) as [H1 H2].
+        unfold asub in H1, H2. cbn [snd] in H1, H2. rewrite H1. cbn [andb].
+        apply forallb_forall. exact H2.
+    - apply filter_In in Hk as [Hk HL]. destruct k as [[r m] c]. subst y.
+      unfold inL, ami in HL. cbn [fst snd] in HL. apply dlogic_eqb_eq in HL.
+      unfold mkrem, arow, ami, asub. cbn [fst snd]. rewrite moved_ok_n_eq.
+      rewrite (new_group_absent ao nk Hwo Hc L r m c Hk HL Hn).
+      destruct (alookup r ao) as [[mo so]|]; reflexivity.
+  Qed.
+
+  Lemma level_moved_nodes inrw d :
+    In d (diff_level ao (cks nk) pop inrw) -> moved_ok_n ao nk d = true.
+  Proof.
+    intros Hd. rewrite diff_level_unfold in Hd. apply in_flat_map in Hd as (L & _ & Hd).
+    pose proof (run_group_ok ao nk pop Hwo Hwn Hc Hpop IHL L inrw) as (G1 & _).
+    pose proof (G1 d Hd) as HLd.
+    apply run_dlogic_In in Hd as (inrw' & mta & y & Hy & [E|E]); subst d.
+    - eapply entry_moved. exact Hy.
+    - apply lossless_no_aff_moved; [exact HLd|].
+      apply aff_to_moved_no_aff.
+      destruct pop_not_unchanged as [Hp|Hp].
+      + eapply base_nu; [|exact Hp|exact Hy]. apply Forall_forall. intros k _. apply diff_t_nu.
+      + (* old side empty: every entry is ADDED below an ADDED/any parent; still no UNCHANGED unless pop is *)
+        destruct (op_eqb pop Unchanged) eqn:Eu.
+        * (* pop = Unchanged with an empty old side: all entries are ADDED *)
+          apply base_diff_In in Hy as [(k & Hk & Hrel)|(k & Hk & Hn & E)].
+          -- unfold scan_rel in Hrel. rewrite Hp in Hrel. cbn [filter alookup] in Hrel. subst y.
+             cbn [no_unchanged_n op_eqb negb andb].
+             apply forallb_forall. intros x Hx. eapply (diff_t_nu (asub k)); [|exact Hx]. discriminate.
+          -- rewrite Hp in Hk. destruct Hk.
+        * eapply base_nu; [| |exact Hy]; [apply Forall_forall; intros k _; apply diff_t_nu|].
+          intro E. rewrite E in Eu. discriminate.
+  Qed.
+
+  Lemma level_moved_lvl inrw :
+    moved_ok_lvl (op_eqb pop Moved) ao nk (diff_level ao (cks nk) pop inrw) = true.
+  Proof.
+    rewrite moved_ok_lvl_eq. apply forallb_forall. intros d Hd. unfold mclause.
     destruct (is_ordered_in nk (d_row d)) eqn:Eord; [|reflexivity]. cbn [negb orb].
+    destruct (amem (d_row d) ao) eqn:Eao; [|reflexivity]. cbn [negb orb].
+    destruct (amem (d_row d) nk) eqn:Enk; [|reflexivity]. cbn [negb orb].
     rewrite diff_level_unfold in Hd. apply in_flat_map in Hd as (L & _ & Hd).
     assert (HL : L = DOrdered).
-    { destruct (run_group_ok ao nk Affected Hwo Hwn Hc Hpop IHL L false) as (_ & _ & G3 & _).
+    { destruct (run_group_ok ao nk pop Hwo Hwn Hc Hpop IHL L inrw) as (_ & _ & G3 & _).
       apply (is_ordered_dl_of ao nk Hc) in Eord.
       destruct (G3 d Hd) as [H|H].
       - rewrite (dl_of_old ao nk Hwo L _ H) in Eord. exact Eord.
@@ -120,42 +315,66 @@ Section MovedTop.
     set (og := filter (inL DOrdered) ao) in *. set (ng := filter (inL DOrdered) nk) in *.
     eapply Permutation_in in Hd; [|apply base_diff_perm].
     apply in_app_iff in Hd as [Hd|Hd].
-    - destruct (amem (d_row d) ao) eqn:Eao; [|reflexivity]. cbn [negb orb].
-      destruct (amem (d_row d) nk) eqn:Enk; [|reflexivity]. cbn [negb orb].
-      assert (Hog : amem (d_row d) og = true).
+    - assert (Hog : amem (d_row d) og = true).
       { assert (Hrow : In (d_row d) (arows ng)).
-        { rewrite <- (scan_rows og Affected false false ng 0 false). apply in_map. exact Hd. }
+        { rewrite <- (scan_rows og pop inrw false ng 0 false). apply in_map. exact Hd. }
         unfold arows in Hrow. apply in_map_iff in Hrow as ([[r m] c] & E & Hk).
         unfold arow in E. cbn [fst] in E. rewrite <- E.
         apply filter_In in Hk as [Hk HLk]. unfold inL, ami in HLk. cbn [fst snd] in HLk.
         apply dlogic_eqb_eq in HLk.
         unfold amem. subst og. rewrite (old_group_lookup ao nk Hwo Hc DOrdered r m c Hk HLk).
         rewrite <- E in Eao. exact Eao. }
-      pose proof (scan_moved_false false ng [] og) as HS. cbn [app List.length] in HS.
+      pose proof (scan_moved_gen pop inrw ng [] og) as HS. cbn [app List.length] in HS.
       rewrite (HS (NoDup_arows_filter _ _ (awf_NoDup ao Hwo)) (NoDup_arows_filter _ _ (awf_NoDup nk Hwn)) d Hd Hog).
       apply eqb_reflx.
-    - apply in_map_iff in Hd as (k & E & Hk). subst d.
+    - exfalso. apply in_map_iff in Hd as (k & E & Hk). subst d.
       apply filter_In in Hk as [Hk Hnot]. apply filter_In in Hk as [Hk HLk].
       destruct k as [[r m] c]. unfold inL, ami in HLk. cbn [fst snd] in HLk. apply dlogic_eqb_eq in HLk.
       unfold notin in Hnot. apply negb_true_iff in Hnot. apply existsb_eqb_false in Hnot.
       unfold arow in Hnot. cbn [fst] in Hnot.
-      unfold mkrem, arow, ami, asub. cbn [fst snd d_row].
-      assert (E : amem r nk = false).
-      { unfold amem. rewrite (new_group_absent ao nk Hwo Hc DOrdered r m c Hk HLk Hnot). reflexivity. }
-      rewrite E. cbn [negb orb]. rewrite orb_true_r. reflexivity.
+      unfold mkrem, arow, ami, asub in Enk. cbn [fst snd d_row] in Enk.
+      unfold amem in Enk. rewrite (new_group_absent ao nk Hwo Hc DOrdered r m c Hk HLk Hnot) in Enk. discriminate.
   Qed.
-End MovedTop.
+End MovedLevel.
+
+Theorem diff_t_moved : forall t, MV t.
+Proof.
+  induction t as [nk IH] using atree_ind2. unfold MV. cbn [akids].
+  intros ao pop inrw Hwo Hwn Hc Hpop. rewrite diff_t_unfold. split.
+  - apply level_moved_lvl; assumption.
+  - intros d Hd. eapply level_moved_nodes; eassumption.
+Qed.
+
+Lemma moved_ok_mark_all ao an d : moved_ok ao an d = true -> moved_ok ao an (mark_unchanged d) = true.
+Proof.
+  unfold moved_ok, mark_unchanged. intros H. apply andb_true_iff in H as [H1 H2].
+  rewrite moved_lvl_mark, H1. cbn [andb].
+  apply forallb_forall. intros x Hx. apply in_map_iff in Hx as (y & Ey & Hy). subst x.
+  rewrite forallb_forall in H2. apply moved_mark. apply H2. exact Hy.
+Qed.
 
 Section TopMoved.
   Variable rmatch : string -> string -> option (list string).
+
+  (* MOVED characterisation at every depth *)
+  Theorem diff_moved_all_lib : forall rs old new, wf old -> wf new ->
+    moved_ok (annot_f rmatch rs old) (annot_f rmatch rs new) (make_diff rmatch rs old new) = true.
+  Proof.
+    intros rs old new Ho Hn. unfold make_diff, raw_diff. apply moved_ok_mark_all.
+    change (annot_f rmatch rs new) with (akids (annot rmatch rs (T new))).
+    destruct (diff_t_moved (annot rmatch rs (T new)) (annot_f rmatch rs old) Affected false) as [H1 H2].
+    - apply annot_awf. exact Ho.
+    - apply (annot_awf rmatch new rs Hn).
+    - apply (annot_compat rmatch new rs old).
+    - left. reflexivity.
+    - unfold moved_ok. cbn [op_eqb] in H1. rewrite H1. cbn [andb]. apply forallb_forall. exact H2.
+  Qed.
+
+  (* its top-level part *)
   Theorem diff_moved_ok_lib : forall rs old new, wf old -> wf new ->
     moved_ok_top (annot_f rmatch rs old) (annot_f rmatch rs new) (make_diff rmatch rs old new) = true.
   Proof.
-    intros rs old new Ho Hn. unfold make_diff, raw_diff.
-    change (annot rmatch rs (T new)) with (AT (annot_f rmatch rs new)).
-    rewrite diff_t_unfold. apply level_moved.
-    - apply annot_awf. exact Ho.
-    - apply annot_awf. exact Hn.
-    - apply annot_compat.
+    intros rs old new Ho Hn. pose proof (diff_moved_all_lib rs old new Ho Hn) as H.
+    unfold moved_ok in H. apply andb_true_iff in H as [H _]. exact H.
   Qed.
 End TopMoved.
